@@ -831,8 +831,17 @@ fn ret(nvars: u8) -> impl Strategy<Value = Ret> {
         prop_oneof![2 => Just(None), 1 => (any::<u8>(), any::<bool>()).prop_map(Some)],
         prop_oneof![6 => Just(None), 1 => (0u8..3).prop_map(Some)],
         prop_oneof![4 => Just(None), 1 => (0u8..6).prop_map(Some)],
+        prop_oneof![3 => Just(Some(1u8)), 2 => Just(Some(2u8)), 1 => Just(None)],
     )
-        .prop_map(|(items, distinct, order, skip, limit)| Ret::Props { items, distinct, order, skip, limit });
+        .prop_map(|(mut items, distinct, order, skip, limit, order_key)| {
+            // ORDER BY mostly on y (Int only) or s (String only): the engine's sort comparator is not a total
+            // order over a key column that mixes Int64 and Float64 (x, w), see the known findings
+            if let (Some((i, _)), Some(k)) = (order, order_key) {
+                let n = items.len();
+                items[i as usize % n].key = k;
+            }
+            Ret::Props { items, distinct, order, skip, limit }
+        });
     let aggf = prop_oneof![Just(AggF::Count), Just(AggF::Sum), Just(AggF::Min), Just(AggF::Max), Just(AggF::Avg)];
     prop_oneof![
         5 => props,
@@ -1135,6 +1144,99 @@ pub fn neutralize_limits(op: &LogicalOperator) -> LogicalOperator {
             L::Return(r)
         }
         other => other.clone(),
+    }
+}
+
+/// Variables bound below an operator (scans, expands).
+pub fn bound_vars(op: &LogicalOperator, out: &mut std::collections::BTreeSet<String>) {
+    use LogicalOperator as L;
+    match op {
+        L::NodeScan(s) => {
+            out.insert(s.variable.clone());
+            if let Some(i) = &s.input {
+                bound_vars(i, out);
+            }
+        }
+        L::Expand(e) => {
+            out.insert(e.to_variable.clone());
+            if let Some(v) = &e.edge_variable {
+                out.insert(v.clone());
+            }
+            bound_vars(&e.input, out);
+        }
+        L::Filter(f) => bound_vars(&f.input, out),
+        L::Project(p) => bound_vars(&p.input, out),
+        L::Join(j) => {
+            bound_vars(&j.left, out);
+            bound_vars(&j.right, out);
+        }
+        L::LeftJoin(j) => {
+            bound_vars(&j.left, out);
+            bound_vars(&j.right, out);
+        }
+        L::Aggregate(a) => bound_vars(&a.input, out),
+        L::Limit(l) => bound_vars(&l.input, out),
+        L::Skip(l) => bound_vars(&l.input, out),
+        L::Sort(l) => bound_vars(&l.input, out),
+        L::Distinct(l) => bound_vars(&l.input, out),
+        L::Return(r) => bound_vars(&r.input, out),
+        L::SetProperty(x) => bound_vars(&x.input, out),
+        L::DeleteNode(x) => bound_vars(&x.input, out),
+        _ => {}
+    }
+}
+
+/// Variables bound on BOTH sides of some Join / LeftJoin (the engine does not unify them: the output has
+/// two columns of that name and operators resolve the name differently).
+pub fn doubly_bound_vars(op: &LogicalOperator, out: &mut std::collections::BTreeSet<String>) {
+    use LogicalOperator as L;
+    let both = |l: &LogicalOperator, r: &LogicalOperator, out: &mut std::collections::BTreeSet<String>| {
+        let (mut a, mut b) = (Default::default(), Default::default());
+        bound_vars(l, &mut a);
+        bound_vars(r, &mut b);
+        out.extend(a.intersection(&b).cloned());
+        doubly_bound_vars(l, out);
+        doubly_bound_vars(r, out);
+    };
+    match op {
+        L::Join(j) => both(&j.left, &j.right, out),
+        L::LeftJoin(j) => both(&j.left, &j.right, out),
+        L::NodeScan(s) => {
+            if let Some(i) = &s.input {
+                doubly_bound_vars(i, out);
+            }
+        }
+        L::Expand(e) => doubly_bound_vars(&e.input, out),
+        L::Filter(f) => doubly_bound_vars(&f.input, out),
+        L::Project(p) => doubly_bound_vars(&p.input, out),
+        L::Aggregate(a) => doubly_bound_vars(&a.input, out),
+        L::Limit(l) => doubly_bound_vars(&l.input, out),
+        L::Skip(l) => doubly_bound_vars(&l.input, out),
+        L::Sort(l) => doubly_bound_vars(&l.input, out),
+        L::Distinct(l) => doubly_bound_vars(&l.input, out),
+        L::Return(r) => doubly_bound_vars(&r.input, out),
+        _ => {}
+    }
+}
+
+/// Variables whose properties a predicate reads.
+pub fn pred_vars(p: &Pred, sc: &Scope, out: &mut std::collections::BTreeSet<String>) {
+    match p {
+        Pred::IsNull(r, _) => {
+            out.insert(sc.resolve(*r).0);
+        }
+        Pred::And(a, b) | Pred::Or(a, b) => {
+            pred_vars(a, sc, out);
+            pred_vars(b, sc, out);
+        }
+        Pred::Not(a) => pred_vars(a, sc, out),
+        Pred::Cmp(a, _, b) => {
+            for o in [a, b] {
+                if let Operand::P(r) = o {
+                    out.insert(sc.resolve(*r).0);
+                }
+            }
+        }
     }
 }
 
